@@ -930,6 +930,42 @@ def check_special_spellings(r, repo, rule="R13.10"):
         r.ob(rule, f"{REL}::bin2float reads the spelling `{sval}` written by {wname}", ok, detail, loc(REL, rt if rt is not None else b2f))
 
 
+def check_nonfinite_multiword(r, repo, rule="R13.11"):
+    """Infinities and NaN map to themselves where the format can express them - a list of floats can.  An infinite or NaN mpf has
+    no mantissa (man == 0), so the word loop of mpf2multiword produces nothing for it and the converter back returns 0: the
+    producer has to return the value itself as a single word *before* it unpacks the raw fields, as its sibling mpf2expansion
+    does.  Decided structurally: on every path of mpf2multiword the unpacking `... = x._mpf_` is dominated by a test of the
+    finiteness of x (isfinite / isinf / isnan) whose non-finite arm returns a word made from x itself."""
+    from sa.paths import enumerate_paths
+
+    f = repo.func(REL, "mpf2multiword")
+    xname = f.args.args[1].arg
+    n_paths, bad = 0, 0
+    for p in enumerate_paths(f, unroll=(0,), limit=5000):
+        idx = next((i for i, e in enumerate(p.events) if e.kind == "stmt" and isinstance(e.node, ast.Assign) and dotted(e.node.value) == f"{xname}._mpf_"), None)
+        if idx is None:
+            continue
+        n_paths += 1
+        guarded = any(e.kind == "test" and any(isinstance(c, ast.Call) and (dotted(c.func) or "").split(".")[-1] in ("isfinite", "isinf", "isnan") and any(dotted(a) == xname for a in c.args)
+                                               for c in ast.walk(e.node)) for e in p.events[:idx])
+        if not guarded:
+            bad += 1
+    if n_paths == 0:
+        raise AnalysisError("mpf2multiword: unpacking of x._mpf_ not found on any path")
+    # the non-finite arm returns a word built from x itself
+    returns_self = False
+    for node in ast.walk(f):
+        if isinstance(node, ast.If) and any(isinstance(c, ast.Call) and (dotted(c.func) or "").split(".")[-1] in ("isfinite", "isinf", "isnan") for c in ast.walk(node.test)):
+            for arm in (node.body, node.orelse):
+                for st in arm:
+                    if isinstance(st, ast.Return) and st.value is not None and any(isinstance(c, ast.Call) and (dotted(c.func) or "").split(".")[-1] == "mpf2float" and any(dotted(a) == xname for a in c.args)
+                                                                               for c in ast.walk(st.value)):
+                        returns_self = True
+    r.ob(rule, f"{REL}::mpf2multiword returns a non-finite value as itself", bad == 0 and returns_self,
+         "an infinite or NaN mpf has no mantissa: the word loop yields no word, mpf2multiword returns [] and multiword2mpf turns that into 0 - inf and nan do not map to themselves "
+         "although a list of floats can express them (mpf2expansion returns [inf])", loc(REL, f))
+
+
 def run(repo, tier):
     r = Report("C13", tier, repo, level="other", design_ref="§3/C13")
     r.explanation = (
@@ -945,6 +981,7 @@ def run(repo, tier):
     r.rule("R13.7", "converters: a constant +infinity is produced only under a test that distinguishes the sign of the converted value (infinities map to themselves)", floor=4)
     r.rule("R13.8", "the binary string round trip keeps the sign of zero: float2bin distinguishes the sign bit where it spells zero, bin2float turns the negative-zero spelling into a float negative zero", floor=2)
     r.rule("R13.9", "an expansion / multiword producer that can return the empty list (zero) is matched by a converter back that does not index it unguarded", floor=2)
+    r.rule("R13.11", "mpf2multiword returns an infinite or NaN value as a single word before it touches the mantissa (infinities and NaN map to themselves)", floor=1)
     r.rule("R13.10", "every exponent-less spelling float2bin / mpf2bin can return (0, inf, -inf, nan ...) is taken by a test at the head of bin2float and mapped to the value it spells", floor=4)
     r.rule("R13.3", "float2fraction decodes the IEEE fields exactly: for every finite bit pattern num/denom equals (-1)^s * significand * 2^exponent", floor=18)
     r.rule("R13.1", "format tables agree with IEEE-754 binary16/32/64 (widths, exponent/significand bits, precision, exponent ranges)", floor=30)
@@ -975,4 +1012,5 @@ def run(repo, tier):
     check_signed_zero_string(r, repo)
     check_empty_expansion(r, repo)
     check_special_spellings(r, repo)
+    check_nonfinite_multiword(r, repo)
     return r
